@@ -32,6 +32,15 @@ Streams
                    constant, invalid fit name, mask of the wrong shape) / in-place edits of intensities_4d / intensities_4d= /
                    com_measured= / com_fit= (valid and wrong shape); judged by a FRESH object built from a copy of the current
                    patterns (bit-identical), the exact oracle, and `dsStep` at Rat after every call
+  prep    exact/   (c18_g6.py) the dataset model AFTER its centre-of-mass stage (_normalize_diffraction_intensities, shift_array, fftshift):
+          float    integer-valued com_fit handed in through the setter (any sign, beyond the edges) or produced by the public preprocess() on
+                   strictly positive patterns with an exact integer centre of mass; centred amplitudes / intensities vs the circular roll
+                   (bit-exact for bilinear=True, 1e-5*max for the Fourier shift), descan_shifts exact, Model/OriginPrep.lean at Rat (also
+                   quarter-pixel origins, model tie only)
+  fixed   -        (c18_g6.py) blocks that do not depend on VERIF_SEED: 15 / 130 / 272 patterns x batch sizes around the count and around
+                   127 / 128 / 255 / 256, integer origins of every sign combination x targets below and above the origin x every batch size,
+                   one origin model whose tensor is replaced by the same number of patterns in another scan shape before plane fits
+                   (set and MEASURED planar origins), one origin model shifted repeatedly with changing target / batch / origins / data
   sigs    exact    parameter order and defaults of the anchored entry points
   gen     proof    _plane / _parabola / _bezier_two are translated from the source on every run (translator/surface2lean.py ->
                    Generated/OriginSurface.lean) and proved equal to the hand model surfaceF (generated_eq_spec_*)
@@ -46,23 +55,28 @@ LEVEL = "proof"
 EXTRA_PROPS = ["QuantemModel.Props.C18Ext"]   # growth 6: the dataset model after its centre-of-mass stage (Model/OriginPrep.lean)
 MANIFEST_ENTRY = {
     "category": "proof",
-    "text": "Lean 4 theorems over three separately written executable models of the centre-of-mass code (torch batched calculate_origin, numpy vectorised and looped _set_intensities_com): for every carrier (incl. binary64) the batched result is independent of the batch size and the three paths return the same values; over R each equals the intensity-weighted mean row/column index of the (masked) pattern and is invariant under multiplying every pattern by its own non-zero factor (com_scale_invariant); a constant fit of constant origins and a PCA plane fit (any null vector of the scatter form; unconditional on every scan raster of at least 2x2 positions, plane_exact_raster) or least-squares fit (any minimiser; instantiated for the modelled _plane/_parabola/_bezier_two families) of origins lying exactly on a plane/surface return that surface; shift_origin_to with integer origin is exactly the circular roll (bilinear weights (1,0,0,0), periodic index). Tied to the code on every run by bit-exact comparison on integer-valued patterns for every batch size, masks, non-square shapes; the two real classes (direct-ptychography origin model, ptychography dataset model incl. preprocess()) are additionally compared with each other on the same datasets (<= 1 float32 ulp). Both objects are also modelled as state machines whose calls return or raise (Model/OriginState.lean): a rejected primitive call leaves the object unchanged, a history equals the history of its accepted calls, num_dps follows the tensor, stored origins have one row per pattern, and calculate_origin / shift_origin_to / constant fit / the centre-of-mass stage of preprocess() give the weighted mean / the roll / the constant / the weighted mean of the patterns held NOW after ANY history; tied by generated call histories with rejected calls, tensor replacement, in-place edits and re-runs (twin without the rejected calls, fresh object, exact oracle, omStep / dsStep at Rat after every call). The curve_fit families _plane/_parabola/_bezier_two are re-translated from the source on every run and proved equal to the modelled surfaceF.",
-    "note": "Proved: batch/path independence, COM = weighted mean, constant/plane exactness, integer shift = roll, all on the model. Also proved: the flat (N,2) and the (Rx,Ry,2) grid input forms of the origin setters store the same origins on every scan shape (origin_forms_agree; counterexample for the too-weak layout test ndim==3 and shape[0]==2), the parabola fit is exact on every raster >= 3x3 (rank condition quad_unique; undetermined on 2x2: counterexample), shift_origin_to is the roll for negative / beyond-the-edge integer origins and non-corner targets, the centre of mass is translation covariant (com_translation_covariant), and sub-pixel shifts are NOT intensity conserving (zero padding; exact-carrier counterexample). Measured only: torch.linalg.eigh and scipy curve_fit reach the fitted surface to float tolerance (PCA 5e-4 rel. float32, curve_fit 1e-6), grid_sample un-normalisation in float32 (1e-5*max). The curve_fit variants plane/parabola/bezier_two are modelled (surfaceF), covered in Lean by lsq_minimiser_exact / lsq_variants_exact (any least-squares minimiser reproduces data lying on the family) and exercised on exact surfaces with mask=None, all-True and partial masks. Patterns with zero total (masked) intensity are outside the property (positive intensities). Growth round 5 — proved: exception safety of every primitive call of both objects (om_/ds_rejected_call_leaves_object_unchanged), om_history_ignores_rejected_calls, om_num_dps_follows_tensor, om_rows_invariant, om_measure_after_any_history, om_shift_after_any_history, om_constant_fit_in_any_state, ds_preprocess_reads_current_patterns_only, ds_com_after_any_history, shift_int_roll for EVERY detector shape (axis of length 1 included), generated_eq_spec_plane/parabola/bezier_two; counterexamples kept: forward() is not atomic (replayed on the real code), a store-before-validate setter. Measured only in the histories: plane fits of origins that are not on a plane (eigenvector), shifts by origins that came out of a fit (float32, near-integer: compared with the twin bit for bit, not with the model), interpolation modes nearest / bicubic (against np.roll only), everything preprocess() does after the centre-of-mass stage. Not modelled: estimate_detector_rotation, robust=True, negative batch sizes (calculate_origin(max_batch_size=-1) stores an unwritten buffer: outside the quantifier 1..num_patterns).",
+    "text": "Lean 4 theorems over three separately written executable models of the centre-of-mass code (torch batched calculate_origin, numpy vectorised and looped _set_intensities_com): for every carrier (incl. binary64) the batched result is independent of the batch size and the three paths return the same values; over R each equals the intensity-weighted mean row/column index of the (masked) pattern and is invariant under multiplying every pattern by its own non-zero factor (com_scale_invariant); a constant fit of constant origins and a PCA plane fit (any null vector of the scatter form; unconditional on every scan raster of at least 2x2 positions, plane_exact_raster) or least-squares fit (any minimiser; instantiated for the modelled _plane/_parabola/_bezier_two families) of origins lying exactly on a plane/surface return that surface; shift_origin_to with integer origin is exactly the circular roll (bilinear weights (1,0,0,0), periodic index). Tied to the code on every run by bit-exact comparison on integer-valued patterns for every batch size, masks, non-square shapes; the two real classes (direct-ptychography origin model, ptychography dataset model incl. preprocess()) are additionally compared with each other on the same datasets (<= 1 float32 ulp). Both objects are also modelled as state machines whose calls return or raise (Model/OriginState.lean): a rejected primitive call leaves the object unchanged, a history equals the history of its accepted calls, num_dps follows the tensor, stored origins have one row per pattern, and calculate_origin / shift_origin_to / constant fit / the centre-of-mass stage of preprocess() give the weighted mean / the roll / the constant / the weighted mean of the patterns held NOW after ANY history; tied by generated call histories with rejected calls, tensor replacement, in-place edits and re-runs (twin without the rejected calls, fresh object, exact oracle, omStep / dsStep at Rat after every call). The curve_fit families _plane/_parabola/_bezier_two are re-translated from the source on every run and proved equal to the modelled surfaceF. Growth round 6: the dataset model's stage AFTER the centre of mass (shift_array bilinear, max(.,0), fftshift, descan shift) is modelled (Model/OriginPrep.lean) and proved, for every detector shape and every integer fitted origin, to be the circular roll that moves the fitted origin to (h//2, w//2) — the same roll shift_origin_to performs for that target (ds_centre_eq_om_shift_to_centre); tied by the prep stream (bit-exact on perfect-square intensities).",
+    "note": "Proved: batch/path independence, COM = weighted mean, constant/plane exactness, integer shift = roll, all on the model. Also proved: the flat (N,2) and the (Rx,Ry,2) grid input forms of the origin setters store the same origins on every scan shape (origin_forms_agree; counterexample for the too-weak layout test ndim==3 and shape[0]==2), the parabola fit is exact on every raster >= 3x3 (rank condition quad_unique; undetermined on 2x2: counterexample), shift_origin_to is the roll for negative / beyond-the-edge integer origins and non-corner targets, the centre of mass is translation covariant (com_translation_covariant), and sub-pixel shifts are NOT intensity conserving (zero padding; exact-carrier counterexample). Measured only: torch.linalg.eigh and scipy curve_fit reach the fitted surface to float tolerance (PCA 5e-4 rel. float32, curve_fit 1e-6), grid_sample un-normalisation in float32 (1e-5*max). The curve_fit variants plane/parabola/bezier_two are modelled (surfaceF), covered in Lean by lsq_minimiser_exact / lsq_variants_exact (any least-squares minimiser reproduces data lying on the family) and exercised on exact surfaces with mask=None, all-True and partial masks. Patterns with zero total (masked) intensity are outside the property (positive intensities). Growth round 5 — proved: exception safety of every primitive call of both objects (om_/ds_rejected_call_leaves_object_unchanged), om_history_ignores_rejected_calls, om_num_dps_follows_tensor, om_rows_invariant, om_measure_after_any_history, om_shift_after_any_history, om_constant_fit_in_any_state, ds_preprocess_reads_current_patterns_only, ds_com_after_any_history, shift_int_roll for EVERY detector shape (axis of length 1 included), generated_eq_spec_plane/parabola/bezier_two; counterexamples kept: forward() is not atomic (replayed on the real code), a store-before-validate setter. Measured only in the histories: plane fits of origins that are not on a plane (eigenvector), shifts by origins that came out of a fit (float32, near-integer: compared with the twin bit for bit, not with the model), interpolation modes nearest / bicubic (against np.roll only), the Fourier (bilinear=False) variant of shift_array (against np.roll, 1e-5*max), padding / probe_energy options of preprocess(), crop_patterns / positions_mask of _normalize_diffraction_intensities (not reachable from preprocess()). Growth round 6 — proved (Props/C18Ext.lean): ds_centre_int_roll, ds_centre_eq_om_shift_to_centre, ds_centre_all_int_roll, ds_descan_shift_int; fixed generator blocks for counts 15 / 130 / 272 vs batch sizes, sign combinations of origins and targets, same-count scan reshapes before plane fits (also on MEASURED origins that lie exactly on a plane), repeated shifts on one object. Not modelled: estimate_detector_rotation, robust=True, negative batch sizes (calculate_origin(max_batch_size=-1) stores an unwritten buffer: outside the quantifier 1..num_patterns).",
     "technique": "Lean 4 proof (list induction, state-machine invariants over call histories with raising calls, field algebra over R, floor/emod arithmetic) + exact model-vs-implementation correspondence + source-to-Lean translation of the fitted families on every run",
 }
 RULE = ("com stream: one case = one 4-D dataset (scan sr x sc, detector h x w, integer intensities, optional mask) x one code path x one batch size; "
         "distinct non-trivial = distinct (sr, sc, h, w, mask kind, path, batch size) with h != w or sr != sc or a mask; fit/shift: distinct (scan, detector, kind, batch); "
-        "omhist / dshist: one case = one call of a generated history on one object; distinct = distinct (shapes, sequence of (call kind, accepted / rejected[, fit, path]))")
+        "omhist / dshist: one case = one call of a generated history on one object; distinct = distinct (shapes, sequence of (call kind, accepted / rejected[, fit, path])); "
+        "prep: one case = one dataset x one route (com_fit handed in / public preprocess) x one shift variant (bilinear / Fourier); distinct = distinct (route, scan, detector, variant)")
 TRUSTED = ["IEEE float32/float64 division is correctly rounded (torch, NumPy) — used to round the model's exact fraction",
            "torch.linalg.eigh / scipy.optimize.curve_fit (the eigenvector / minimiser is a parameter of the model; its quality is measured)",
            "torch.nn.functional.grid_sample semantics (bilinear, align_corners=True, zero padding) as modelled",
            "Python evaluates the right-hand side of an attribute assignment completely before assigning (modelled by `commit`); which exception class a rejected call raises is recorded, only accepted / rejected is compared",
+           "np.roll / np.fft.fftshift index conventions as modelled by `rolledAt` (Model/OriginPrep.lean); np.sqrt of a perfect square and its square are exact in float32",
            "harness/translator/surface2lean.py (ast -> Lean for three one-expression functions; cross-checked by the fitvar stream on the same functions)"]
 ASSUMPTIONS = ["scaled data stay inside the float32 normal range (factors 1e-30 … 1e12 on pixel values 1 … 1000); the scale stream's tolerance is 1e-4 of the detector extent for decimal factors (every pixel is rounded once) and bit equality for powers of two",
                "partial position masks are generated for the plane and constant fits only (for parabola/bezier_two the unmasked positions need not determine the surface at the masked ones); the robust=True option of fit_origin is not exercised",
                "intensities are positive integers <= 1000 on detectors <= 10x10 so that every partial sum is an exactly representable integer; mask values are multiples of 1/2",
                "detector axes of length 1 are generated in the shift stream only (12 % of its cases); in the history streams detectors are >= 2 x 2, scans 1x1 … 4x4, 4-9 calls per origin-model history, 3-7 per dataset-model history",
                "in histories a plane fit is only requested when the measured origins were set on an exact dyadic plane (the model is given its exact null vector); after a fit the fitted origins are float32 results, so a following shift is compared with the twin object bit for bit but not with the model / np.roll",
+               "prep stream: intensities are perfect squares k^2 (k = 1..30) on the handed-in route so that sqrt and square are exact in float32 (bit equality for bilinear=True); on the public route patterns are outer products of "
+               "positive integer vectors whose weighted mean index is an exact integer 1..size-2 (a strictly positive pattern cannot have its centre of mass on the border); the centred position (h//2, w//2) is the one np.fft.fftshift "
+               "moves the corner to and the one descan_shifts is computed with; scans 1x1 … 4x4 (+ fixed 3x5 / 5x3), detectors 1 … 7",
                "plane fits need scan positions that are not collinear (sr, sc >= 2); 1 x n scans are used for the constant fit and the COM streams only",
                "fit tolerances: 5e-4*max(1,|z|) on float32 paths (torch PCA, com_fit), 1e-6*max(1,|z|) on fit_origin's float64 output; shift: 1e-5*max|I|"]
 EXPLANATION = ("Theorems in Props/C18.lean are about Model/Origin.lean; every run feeds integer-valued datasets to the real torch and numpy COM code "
